@@ -199,7 +199,13 @@ def assign_heights(rng, t: Node, leaf_height: dict):
 
 
 # ----------------------------------------------------------------------------- alignments
-def random_alignment(rng, names, nsites, alphabet=NUC18, plain="ACGT", p_amb=0.25, repeat=True, lower=False):
+PARTIAL_AMB = "RYMWSKBDHV"
+
+
+def random_alignment(rng, names, nsites, alphabet=NUC18, plain="ACGT", p_amb=0.25, repeat=True, lower=False, special=False):
+    """columns as strings (one character per name). With `special` (nucleotides) the alignment is guaranteed to
+    contain: a column in which NO taxon is unambiguous (every tip a partial ambiguity code R,Y,M,W,S,K,B,D,H,V),
+    one where those are mixed with N/-/?, an all-gap column, a column repeated many times, RNA-style U/u."""
     cols = []
     for _ in range(nsites):
         if repeat and cols and rng.random() < 0.3:
@@ -219,6 +225,23 @@ def random_alignment(rng, names, nsites, alphabet=NUC18, plain="ACGT", p_amb=0.2
                 c = c.lower()
             col.append(c)
         cols.append("".join(col))
+    if special:
+        def lw(c):
+            return c.lower() if lower and rng.random() < 0.2 else c
+        extra = ["".join(lw(rng.choice(PARTIAL_AMB)) for _ in names)]
+        if rng.random() < 0.7:
+            extra.append("".join(lw(rng.choice(PARTIAL_AMB + "N-?")) for _ in names))
+        if rng.random() < 0.6:
+            extra.append(rng.choice(["-", "?", "N"]) * len(names))
+        if rng.random() < 0.6:
+            extra.append("".join(rng.choice("UuACG") for _ in names))
+        if rng.random() < 0.6:
+            c = rng.choice(extra + cols)
+            extra += [c] * rng.randint(4, 12)
+        if rng.random() < 0.3:
+            extra += [extra[0]] * rng.randint(2, 5)
+        for c in extra:
+            cols.insert(rng.randint(0, len(cols)), c)
     return {nm: "".join(c[i] for c in cols) for i, nm in enumerate(names)}
 
 
@@ -363,8 +386,15 @@ def build_spec(case: dict) -> dict:
     aln = {"id": "aln", "type": "Alignment", "datatype": datatype_json(case["datatype"]), "taxa": "taxa",
            "sequences": [{"taxon": nm, "sequence": case["seqs"][nm]} for nm in case["seq_order"]]}
     if case["rooting"] == "unrooted":
-        tree = {"id": "tree", "type": "UnRootedTreeModel", "newick": case["newick"],
-                "branch_lengths": P("bl", [0.0]), "keep_branch_lengths": True, "taxa": taxa}
+        if case.get("branch_lengths") is not None:
+            tree = {"id": "tree", "type": "UnRootedTreeModel", "newick": case["newick"],
+                    "branch_lengths": P("bl", case["branch_lengths"]), "taxa": taxa}
+        else:
+            tree = {"id": "tree", "type": "UnRootedTreeModel", "newick": case["newick"],
+                    "branch_lengths": P("bl", [0.0]), "keep_branch_lengths": True, "taxa": taxa}
+    elif case.get("ratios") is not None:
+        tree = {"id": "tree", "type": "ReparameterizedTimeTreeModel", "newick": case["newick"], "taxa": taxa,
+                "ratios": P("ratios", case["ratios"]), "root_height": P("root_height", [case["root_height"]])}
     else:
         tree = {"id": "tree", "type": "TimeTreeModel", "newick": case["newick"], "taxa": taxa}
         if case.get("internal_heights") is not None:
@@ -454,7 +484,7 @@ def make_names(rng, n):
 
 
 def gen_case(rng, n, topo: Node | None = None, subst=None, site=None, rooting=None, tip_states=None,
-             use_amb=None, nsites=None, clock=None, explicit_heights=None) -> dict:
+             use_amb=None, nsites=None, clock=None, explicit_heights=None, special=None, use_amb_fixed=False) -> dict:
     """one JSON-serialisable case description"""
     subst = subst or rng.choice(["JC69", "HKY", "GTR", "GeneralSymmetric", "GeneralNonSymmetric"])
     site = site or rng.choice(["constant", "invariant", "weibull", "weibull+inv"])
@@ -472,7 +502,8 @@ def gen_case(rng, n, topo: Node | None = None, subst=None, site=None, rooting=No
     if nsites is None:
         nsites = rng.randint(4, 9) if dt != "codon" else rng.randint(2, 4)
     if dt == "nucleotide":
-        seqs = random_alignment(rng, names, nsites, NUC18, "ACGT", lower=True)
+        seqs = random_alignment(rng, names, nsites, NUC18, "ACGT", lower=True,
+                                special=(rng.random() < 0.6) if special is None else special)
     elif dt == "aa":
         seqs = random_alignment(rng, names, nsites, AA_ALL, AA20, p_amb=0.15)
     else:
@@ -482,7 +513,7 @@ def gen_case(rng, n, topo: Node | None = None, subst=None, site=None, rooting=No
     if tip_states is None:
         tip_states = rng.random() < 0.35
     case["use_tip_states"] = bool(tip_states)
-    if use_amb is None:
+    if use_amb is None and not use_amb_fixed:
         use_amb = rng.choice([True, False, None])
     case["use_ambiguities"] = use_amb
     if rooting == "unrooted":
@@ -524,13 +555,37 @@ def leaf_heights_of(case):
     return {nm: (dates[nm] if mn == 0.0 else mx - dates[nm]) for nm in dates}
 
 
+def heights_from_ratios(case, t: Node):
+    """node heights of the ratio parameterisation, recomputed from its definition: the root has `root_height`; an
+    internal node v with parent p has height b(v) + ratio(v) * (height(p) - b(v)), b(v) = the largest height of a
+    leaf below v; ratio(v) is entry (index(v) - n) of `ratios` (the root, numbered last, has none)"""
+    n = len(case["taxa"])
+    set_indices(t, case["taxa"])
+    lh = leaf_heights_of(case)
+    bound = {}
+    for x in t.postorder():
+        bound[id(x)] = lh[x.name] if x.is_leaf() else max(bound[id(k)] for k in x.kids)
+    t.height = case["root_height"]
+    for x in t.preorder():
+        for k in x.kids:
+            if k.is_leaf():
+                k.height = lh[k.name]
+            else:
+                k.height = bound[id(k)] + case["ratios"][k.index - n] * (x.height - bound[id(k)])
+
+
 def oracle_branch_times(case, t: Node):
     """expected substitutions-per-site *before* the site rate, per node (dict id(node) -> float),
     recomputed from the case description with the documented conventions"""
     n = len(case["taxa"])
     set_indices(t, case["taxa"])
     out = {}
-    if case["rooting"] == "unrooted":
+    if case["rooting"] == "unrooted" and case.get("branch_lengths") is not None:
+        bl = case["branch_lengths"]  # addressed by node index; the branch of node 2n-3 has length zero
+        for x in t.postorder():
+            if x is not t:
+                out[id(x)] = bl[x.index] if x.index < 2 * n - 3 else 0.0
+    elif case["rooting"] == "unrooted":
         a, b = t.kids
         for x in t.postorder():
             if x is not t:
@@ -543,7 +598,9 @@ def oracle_branch_times(case, t: Node):
         out[id(other)] = a.length + b.length
         out[id(last)] = 0.0
     else:
-        if case.get("internal_heights") is not None:
+        if case.get("ratios") is not None:
+            heights_from_ratios(case, t)
+        elif case.get("internal_heights") is not None:
             hs = iter(case["internal_heights"])
             lh = leaf_heights_of(case)
             for x in t.postorder():
@@ -752,3 +809,25 @@ def all_rootings(tree: Node, frac=0.25):
 
 
 REVERSIBLE = {"JC69", "HKY", "GTR", "GeneralSymmetric", "LG", "WAG", "MG94"}
+
+
+def alignment_features(case):
+    """which of the stress features the alignment of a nucleotide case shows"""
+    if case["datatype"] != "nucleotide":
+        return []
+    seqs = [case["seqs"][nm] for nm in case["taxa"]]
+    L = min(len(x) for x in seqs)
+    cols = ["".join(x[j] for x in seqs) for j in range(L)]
+    out = []
+    if any(all(c.upper() in PARTIAL_AMB for c in col) for col in cols):
+        out.append("column-all-partial-ambiguity")
+    if any(all(c.upper() in PARTIAL_AMB + "N-?" for c in col) and any(c in "N-?" for c in col)
+           and any(c.upper() in PARTIAL_AMB for c in col) for col in cols):
+        out.append("column-ambiguity-mixed-with-missing")
+    if any(all(c in "N-?" for c in col) for col in cols):
+        out.append("column-all-missing")
+    if cols and max(cols.count(c) for c in set(cols)) >= 5:
+        out.append("column-repeated>=5")
+    if any(c in "Uu" for col in cols for c in col):
+        out.append("rna-U")
+    return out
